@@ -244,7 +244,10 @@ def job_cli_slow(kind, wait_s):
     # message): it is a reply like any other, the client goes on (seed H19)
     want = [("is-locked", "False"), ("num-running", "1"), ("gather-and-close", "ok"), ("is-locked", "True"),
             ("apply asyncio.sleep -a (0,)", ""), ("num-running", "0"), ("map asyncio.sleep [0]", ""),
-            ("is-full", "False")]
+            ("is-full", "False"),
+            # what the user types reaches the server as typed (apart from case): a non-ASCII
+            # lower-case letter in an argument (seed J08); "~x" = the reply contains x
+            ("cancel-group stra\u00dfe", "~stra\u00dfe"), ("num-running", "0")]
 
     async def work():
         await asyncio.sleep(wait_s)
@@ -254,6 +257,8 @@ def job_cli_slow(kind, wait_s):
         tmp = tempfile.mkdtemp(prefix="verif-c19s-")
         env = dict(os.environ)
         env["PYTHONPATH"] = os.path.join(core.REPO, "src")
+        env["PYTHONUTF8"] = "1"          # the terminal of the CLI user speaks UTF-8
+        env["PYTHONIOENCODING"] = "utf-8"
         if kind == "unix":
             path = os.path.join(tmp, "s.sock")
             server, args = UnixControlServer(pool, socket_path=path), ["unix", path]
@@ -291,7 +296,7 @@ def job_cli_slow(kind, wait_s):
                     fails.append({"what": f"the CLI client showed no reply to '{cmd}' within {wait_s + 6:.0f}s "
                                           f"(the pool method needs {wait_s:.0f}s)", "transcript": out[-400:]})
                     break
-                if got[i].strip() != exp:
+                if (exp[1:] not in got[i]) if exp.startswith("~") else (got[i].strip() != exp):
                     fails.append({"what": f"the CLI client showed '{got[i]}' under '{cmd}', its reply is '{exp}'",
                                   "transcript": out[-400:]})
                     break
